@@ -516,7 +516,48 @@ def judgeHist : Judge := liftJudge fun input obs => do
                  ++ (if optInt cfgJ "compression" (-1) ≥ 0 then ["pcomp"] else []),
          nontrivial := maxHits ≥ 2 }
 
-def judges : List (String × Judge) := [("unit", judgeUnit), ("e2e", judgeE2E), ("hist", judgeHist)]
+/-! ## overlapping compressed responses (harness `conc`): in the model no state is shared between responses
+(`gzip_writers_never_shared`), so every response is the one its own request gets alone: its backend's status, labelled
+gzip, and bit-exactly its backend's body once the label is undone. -/
+
+def judgeConc : Judge := liftJudge fun input obs => do
+  match obsPanic obs with
+  | some m => pure { agree := false, spec := false, sig := "panic:conc", note := m }
+  | none =>
+  if optStr obs "error" != "" then
+    return { agree := false, spec := false, sig := "conc:" ++ (if (optStr obs "error").startsWith "server-panic" then "server-panic" else "harness-error"),
+             note := optStr obs "error" }
+  let warm := (getArr input "warm").toOption.getD #[]
+  let conc := (getArr input "conc").toOption.getD #[]
+  let blobs := ((getArr obs "blobs").toOption.getD #[]).toList
+  let wObs := ((getArr obs "warm").toOption.getD #[]).toList
+  let cObs := ((getArr obs "conc").toOption.getD #[]).toList
+  let via := optStr input "via" "proxy"
+  let check (phase : String) (spec : Json) (blob : Json) (o : Json) : String :=
+    let c := Json.mkObj [("c", o)]
+    match parseSeenResp c with
+    | none => s!"conc:{phase}:no-response"
+    | some r =>
+      let st := (optInt spec "status" 200).toNat
+      let st := if st < 200 || st > 599 || st == 204 || st == 304 then 200 else st
+      if r.err != "" then s!"conc:{phase}:unreadable"
+      else if r.status != st then s!"conc:{phase}:status:{r.status}"
+      else if !r.frameOK then s!"conc:{phase}:framing:{r.frameErr}"
+      else if (r.hdr.get keyCE) != ["gzip"] then s!"conc:{phase}:not-labelled-gzip"
+      else if r.decErr != "" then s!"conc:{phase}:undecodable"
+      else if r.decSum != optStr blob "sum" || r.decLen != (optInt blob "len").toNat then s!"conc:{phase}:content"
+      else if r.hdr.get "X-Body" == [] then s!"conc:{phase}:hdr-lost" else ""
+  let wSigs := (warm.toList.zip (blobs.zip wObs)).map fun (sp, bl, o) => check "warm-up" sp bl o
+  let cSigs := (conc.toList.zip ((blobs.drop warm.size).zip cObs)).map fun (sp, bl, o) => check "overlap" sp bl o
+  let lenOK := wObs.length == warm.size && cObs.length == conc.size
+  let sig := ((wSigs ++ cSigs).find? (· != "")).getD (if lenOK then "" else "conc:missing-observation")
+  let gated := (optInt obs "gated").toNat
+  pure { agree := sig == "", spec := sig == "", sig := sig,
+         tags := ["via:" ++ via, if optInt input "poolMax" < 0 then "stream" else "buffered", s!"overlapping:{conc.size}",
+                  s!"warm-ups:{warm.size}", if gated == conc.size then "all-in-flight-together" else "not-all-gated"],
+         nontrivial := gated ≥ 2 && gated == conc.size }
+
+def judges : List (String × Judge) := [("unit", judgeUnit), ("e2e", judgeE2E), ("hist", judgeHist), ("conc", judgeConc)]
 
 end Driver.C03
 
